@@ -32,6 +32,12 @@ func newCache[H Hash]() cache[H] {
 }
 
 func (c *cache[H]) getHeight(h uint32) *inbox[H] {
+	// Heights below the requested one will never be processed, drop them.
+	for k := range c.mail {
+		if k < h {
+			delete(c.mail, k)
+		}
+	}
 	if m, ok := c.mail[h]; ok {
 		delete(c.mail, h)
 		return m
